@@ -21,6 +21,10 @@ class Tracer:
         self.schd = None
         self.extra = {}
         self.parents = []
+        self.ds_client = None
+        self.ds_want = False
+        self.ds_published = []
+        self.ds_last_checksums = {}
     def emit(self, e, **a):
         if not self.enabled:
             return
@@ -93,7 +97,10 @@ def pool_proj(pool):
 
 def sync_proj(schd):
     pool = schd.pool
-    cached = sorted([tid(t) for t in pool.get_tasks()], key=lambda x: (x[1], x[0]))
+    cached_objs = pool.get_tasks()
+    cached = sorted([tid(t) for t in cached_objs], key=lambda x: (x[1], x[0]))
+    true_objs = {id(t) for d in pool.active_tasks.values() for t in d.values()}
+    cache_identical = {id(t) for t in cached_objs} == true_objs
     buckets = sorted(TR.pt(p) for p in pool.active_tasks)
     empty_buckets = sorted(TR.pt(p) for p, d in pool.active_tasks.items() if not d)
     dup = []
@@ -109,7 +116,7 @@ def sync_proj(schd):
     for qn, q in tqm.queues.items():
         queues[qn] = [tid(t) for t in reversed(q.deque)]
     return {
-        "pool": pool_proj(pool), "cached": cached, "buckets": buckets, "empty_buckets": empty_buckets, "dup": dup,
+        "pool": pool_proj(pool), "cached": cached, "cache_identical": cache_identical, "buckets": buckets, "empty_buckets": empty_buckets, "dup": dup,
         "rhlimit": TR.pt(pool.runahead_limit_point) if pool.runahead_limit_point is not None else None,
         "queues": queues,
         "hold_point": TR.pt(pool.hold_point) if pool.hold_point is not None else None,
@@ -351,6 +358,28 @@ def install():
         return process_queued_ops
     _wrap(WorkflowDatabaseManager, "process_queued_ops", mk_commit)
 
+    # ---- published data store (C25): server store vs pool, and a client copy fed only by published deltas
+    def mk_uds(orig):
+        async def update_data_structure(self, reloaded=False):
+            r = await orig(self, reloaded)
+            if TR.enabled:
+                if TR.ds_want and TR.ds_client is None:
+                    # the client connects now: snapshot first, then every delta published afterwards
+                    ds_client_reset(self)
+                _ds_client_pump(self)
+                TR.emit("ds_update", sync=sync_proj(self), store=_store_proj(self), **_client_cmp(self))
+            return r
+        return update_data_structure
+    _wrap(Scheduler, "update_data_structure", mk_uds)
+
+    def mk_pub(orig):
+        def _publish_deltas(self):
+            if self.data_store_mgr.publish_pending:
+                TR.ds_published.append(_serialise_all_deltas(self.data_store_mgr.publish_deltas))
+            return orig(self)
+        return _publish_deltas
+    _wrap(Scheduler, "_publish_deltas", mk_pub)
+
     # ---- private-DB statements (kill points inside a transaction)
     from cylc.flow.rundb import CylcWorkflowDAO
     def mk_stmt(orig):
@@ -399,6 +428,112 @@ def _in_pool(itask):
         return False
     d = schd.pool.active_tasks.get(itask.point)
     return bool(d) and d.get(itask.identity) is itask
+
+# ------------------------------------------------------------------ data store helpers (C25)
+def _serialise_all_deltas(publish_deltas):
+    """What goes on the wire: the serialised 'all' delta message."""
+    for topic, delta, _meth in publish_deltas:
+        if topic == b"all":
+            return delta.SerializeToString()
+    return None
+
+def ds_client_reset(schd):
+    """A client starts from the initial published snapshot (get_entire_workflow)."""
+    from cylc.flow.data_messages_pb2 import PbEntireWorkflow
+    from cylc.flow.data_store_mgr import (WORKFLOW, TASKS, TASK_PROXIES, JOBS, FAMILIES, FAMILY_PROXIES, EDGES)
+    msg = PbEntireWorkflow()
+    msg.ParseFromString(schd.data_store_mgr.get_entire_workflow().SerializeToString())
+    TR.ds_client = {
+        WORKFLOW: msg.workflow, TASKS: {e.id: e for e in msg.tasks}, TASK_PROXIES: {e.id: e for e in msg.task_proxies},
+        JOBS: {e.id: e for e in msg.jobs}, FAMILIES: {e.id: e for e in msg.families},
+        FAMILY_PROXIES: {e.id: e for e in msg.family_proxies}, EDGES: {e.id: e for e in msg.edges},
+    }
+    TR.ds_published = []
+    TR.ds_last_checksums = {}
+
+def _ds_client_pump(schd):
+    """Apply every delta published since the last pump, in order, with cylc's own apply_delta."""
+    from cylc.flow.data_store_mgr import apply_delta, DELTAS_MAP, ALL_DELTAS
+    if TR.ds_client is None:
+        return
+    for raw in TR.ds_published:
+        if raw is None:
+            continue
+        all_d = DELTAS_MAP[ALL_DELTAS]()
+        all_d.ParseFromString(raw)
+        for field, value in all_d.ListFields():
+            apply_delta(field.name, value, TR.ds_client)
+            if hasattr(value, "checksum") and value.checksum:
+                TR.ds_last_checksums[field.name] = value.checksum
+    TR.ds_published = []
+
+def _tp_proj(tp):
+    import json as _json
+    try:
+        flows = sorted(_json.loads(tp.flow_nums)) if tp.flow_nums else []
+    except Exception:
+        flows = str(tp.flow_nums)
+    return {"st": tp.state, "held": bool(tp.is_held), "queued": bool(tp.is_queued), "rh": bool(tp.is_runahead),
+            "flows": flows, "outs": sorted(out_name(k) for k, o in tp.outputs.items() if o.satisfied),
+            "preok": all(p.satisfied for p in tp.prerequisites)}
+
+def _store_proj(schd):
+    from cylc.flow.data_store_mgr import TASK_PROXIES
+    dsm = schd.data_store_mgr
+    data = dsm.data[dsm.workflow_id][TASK_PROXIES]
+    out = {}
+    for point, d in schd.pool.active_tasks.items():
+        for itask in d.values():
+            tp = data.get(itask.tokens.id)
+            out[f"{itask.tdef.name}.{TR.pt(itask.point)}"] = _tp_proj(tp) if tp is not None else None
+    return out
+
+def _client_cmp(schd):
+    """Compare the client copy with the server store element by element (serialised form) and checksums."""
+    from cylc.flow.data_store_mgr import (WORKFLOW, TASKS, TASK_PROXIES, JOBS, FAMILIES, FAMILY_PROXIES, EDGES,
+                                          generate_checksum)
+    if TR.ds_client is None:
+        return {"client_equal": True, "client_diff": [], "checksum_ok": True, "client": {}, "client_diff_class": "none"}
+    dsm = schd.data_store_mgr
+    srv = dsm.data[dsm.workflow_id]
+    diff = []
+    only_dup_edges = True
+    for key in (TASKS, TASK_PROXIES, JOBS, FAMILIES, FAMILY_PROXIES, EDGES):
+        a, b = srv[key], TR.ds_client[key]
+        for k in set(a) | set(b):
+            if k not in a or k not in b or a[k].SerializeToString(deterministic=True) != b[k].SerializeToString(deterministic=True):
+                diff.append(f"{key}:{k}")
+                if not (k in a and k in b and _same_but_dup_edges(a[k], b[k])):
+                    only_dup_edges = False
+    if srv[WORKFLOW].SerializeToString(deterministic=True) != TR.ds_client[WORKFLOW].SerializeToString(deterministic=True):
+        diff.append("workflow")
+        only_dup_edges = False
+    ck_ok = True
+    for key, ck in TR.ds_last_checksums.items():
+        if key in (TASKS, TASK_PROXIES, JOBS, FAMILIES, FAMILY_PROXIES):
+            mine = generate_checksum([e.stamp for e in TR.ds_client[key].values()])
+            if mine != ck:
+                ck_ok = False
+                only_dup_edges = False
+                diff.append(f"checksum:{key}")
+    cli = {}
+    from cylc.flow.data_store_mgr import TASK_PROXIES as _TP
+    for point, d in schd.pool.active_tasks.items():
+        for itask in d.values():
+            tp = TR.ds_client[_TP].get(itask.tokens.id)
+            cli[f"{itask.tdef.name}.{TR.pt(itask.point)}"] = _tp_proj(tp) if tp is not None else None
+    return {"client_equal": not diff, "client_diff": sorted(diff)[:8], "checksum_ok": ck_ok, "client": cli,
+            "client_diff_class": "none" if not diff else ("dup-edge-refs" if only_dup_edges else "other")}
+
+def _same_but_dup_edges(a, b):
+    """Do two elements differ only by repeated entries in their `edges` reference list?"""
+    if not hasattr(a, "edges"):
+        return False
+    a2, b2 = type(a)(), type(b)()
+    a2.CopyFrom(a); b2.CopyFrom(b)
+    ea, eb = sorted(set(a2.edges)), sorted(set(b2.edges))
+    del a2.edges[:]; del b2.edges[:]
+    return ea == eb and a2.SerializeToString(deterministic=True) == b2.SerializeToString(deterministic=True)
 
 def _rh(pool):
     return TR.pt(pool.runahead_limit_point) if pool.runahead_limit_point is not None else None
